@@ -262,6 +262,167 @@ F1_GRAPH = ToyGraph([
 F1_OPS = [["mode", 0, "REF"], ["set", 0, "a", 1], ["set", 0, "b", 10], ["get", 0, "c"], ["set", 0, "a", 2],
           ["mode", 0, None], ["set", 0, "b", 20], ["revert", 0], ["get", 0, "c"]]
 
+# a per-individual revert whose discarded side is not finite (finding F2 of C02):  y = log2 x
+F2_GRAPH = ToyGraph([
+    dict(name="x", kind="ind", parents=[]),
+    dict(name="y", kind="linked", parents=["x"], fun=["log2", 0, []]),
+], 2, "float64")
+F2_OPS = [["mode", 0, "REF"], ["set", 0, "x", [1, 2]], ["get", 0, "y"], ["put", 0, "x", None, [-2, 2], True], ["get", 0, "y"],
+          ["revmask", 0, [True, False]], ["get", 0, "y"]]
+
+
+# ----------------------------------------------------------------------------- which __setitem__ is under test
+
+
+def detect_setitem_variant():
+    """Which fork rule does `State.__setitem__` of the tree under test have?
+
+    Returns `(fx, detail)`: `fx = True`  — an assignment made while `auto_fork_type is None` forgets `_last_fork`
+                                           (the code since 27ac519; model flag fx = true),
+                            `fx = False` — it leaves `_last_fork` alone (the code before; finding F1; fx = false),
+                            `fx = None`  — not recognised (fail closed: the caller must report a broken translation).
+    Two independent views that have to agree:
+      (a) the source: the body of `__setitem__` contains exactly one statement `if self.auto_fork_type is not None:` whose
+          branch is the single assignment `self._last_fork = self.auto_fork_type.to_cache({...})`, whose `else` is either
+          absent or the single statement `self._last_fork = None`, and `_last_fork` is assigned nowhere else in the method;
+      (b) a probe on a real State (c = a + b): fork REF; a=1; auto_fork_type=None; b=2 (through `__setitem__`, and
+          again through `put`) — is `_last_fork` None afterwards?"""
+    import ast
+    import inspect
+    import textwrap
+
+    import torch
+    from leaspy.variables.state import State, StateForkType
+    detail = dict(source=None, probe_setitem=None, probe_put=None, file=inspect.getsourcefile(State))
+    # (a) source shape
+    src = None
+    try:
+        fn = ast.parse(textwrap.dedent(inspect.getsource(State.__setitem__))).body[0]
+        is_fork_attr = lambda t: isinstance(t, ast.Attribute) and t.attr == "_last_fork"
+        all_assigns = [n for n in ast.walk(fn) if isinstance(n, (ast.Assign, ast.AugAssign, ast.AnnAssign, ast.Delete))
+                       and any(is_fork_attr(t) for t in (n.targets if hasattr(n, "targets") else [n.target]))]
+        ifs = [n for n in fn.body if isinstance(n, ast.If) and ast.unparse(n.test) == "self.auto_fork_type is not None"]
+        if len(ifs) == 1:
+            node = ifs[0]
+            body_ok = (len(node.body) == 1 and isinstance(node.body[0], ast.Assign)
+                       and ast.unparse(node.body[0].targets[0]) == "self._last_fork"
+                       and ast.unparse(node.body[0].value).startswith("self.auto_fork_type.to_cache("))
+            if body_ok and not node.orelse and len(all_assigns) == 1:
+                src = False
+            elif (body_ok and len(node.orelse) == 1 and isinstance(node.orelse[0], ast.Assign)
+                  and ast.unparse(node.orelse[0]) == "self._last_fork = None" and len(all_assigns) == 2):
+                src = True
+        detail["source"] = src
+        detail["source_if"] = ast.unparse(ifs[0]) if len(ifs) == 1 else f"{len(ifs)} matching if statements"
+    except Exception as e:  # noqa
+        detail["source_error"] = f"{type(e).__name__}: {e}"
+    # (b) behaviour
+    try:
+        G = ToyGraph.from_json(F1_GRAPH.to_json())
+        G.build()
+        for key, how in (("probe_setitem", "set"), ("probe_put", "put")):
+            st = State(G.dag)
+            st.auto_fork_type = StateForkType.REF
+            st["b"] = torch.tensor(10)
+            st["a"] = torch.tensor(1)
+            pending = st._last_fork is not None
+            st.auto_fork_type = None
+            if how == "set":
+                st["b"] = torch.tensor(2)
+            else:
+                st.put("b", torch.tensor(2), accumulate=True)
+            detail[key] = (st._last_fork is None) if pending else None
+    except Exception as e:  # noqa
+        detail["probe_error"] = f"{type(e).__name__}: {e}"
+    views = (detail["source"], detail["probe_setitem"], detail["probe_put"])
+    fx = views[0] if (views[0] is not None and views[0] == views[1] == views[2]) else None
+    detail["fx"] = fx
+    return fx, detail
+
+
+def detect_revert_mix_variant():
+    """Which rule does the per-individual `State.revert(subset)` of the tree under test use to combine the forked and the
+    current value?
+
+    Returns `(mix, detail)`: `"where"` — entry-wise selection `torch.where(mask, old, cur)` (since fe0cadd; Coq: xsem_where),
+                             `"blend"` — `old * mask + cur * ~mask` (before; NaN/inf on the discarded side leak; Coq: xsem),
+                             `None`    — not recognised (fail closed).
+    Two independent views that have to agree:
+      (a) the source of `State.revert`: either it multiplies by `to_revert` / `to_keep` and never selects, or it never does
+          and calls `torch.where` (directly or through the module-level helper `_select`, whose body must itself call
+          `torch.where` on the values and multiply nothing);
+      (b) probes on a real State: y = log2 x, x = [1,2] -> [-1,4], individual 0 rejected (cached y[0]: 0 or NaN), and
+          c = 2*x, x = [1,2] -> [inf,3], individual 0 rejected (cached c[0]: 2 or NaN)."""
+    import ast
+    import inspect
+    import math
+    import textwrap
+
+    import torch
+    from leaspy.variables import state as state_mod
+    from leaspy.variables.state import State, StateForkType
+    detail = dict(source=None, probe_log=None, probe_inf=None)
+    try:
+        fn = ast.parse(textwrap.dedent(inspect.getsource(State.revert))).body[0]
+
+        def marks(node):
+            mult = [n for n in ast.walk(node) if isinstance(n, ast.BinOp) and isinstance(n.op, ast.Mult)]
+            blend = [ast.unparse(n) for n in mult if any(w in ast.unparse(n) for w in ("to_revert", "to_keep", "mask"))]
+            calls = [ast.unparse(n.func) for n in ast.walk(node) if isinstance(n, ast.Call)]
+            return blend, mult, calls
+        blend, _, calls = marks(fn)
+        selects = [c for c in calls if c in ("torch.where", "_select")]
+        src = None
+        if blend and not selects:
+            src = "blend"
+        elif selects and not blend:
+            ok = True
+            if "_select" in selects:
+                helper = getattr(state_mod, "_select", None)
+                if helper is None:
+                    ok = False
+                else:
+                    hfn = ast.parse(textwrap.dedent(inspect.getsource(helper))).body[0]
+                    _, hmult, hcalls = marks(hfn)
+                    ok = ("torch.where" in hcalls) and not hmult
+            src = "where" if ok else None
+        detail["source"] = src
+        detail["source_marks"] = dict(multiplications_by_mask=blend[:4], selection_calls=selects)
+    except Exception as e:  # noqa
+        detail["source_error"] = f"{type(e).__name__}: {e}"
+    try:
+        G = ToyGraph.from_json(F2_GRAPH.to_json())
+        G.build()
+        st = State(G.dag)
+        st.auto_fork_type = StateForkType.REF
+        st["x"] = G.tensor([1, 2])
+        st["y"]
+        st.put("x", G.tensor([-2, 2]), accumulate=True)
+        st["y"]
+        st.revert(torch.tensor([True, False]))
+        y0, y1 = st._values["y"].tolist()
+        detail["probe_log"] = "where" if (y0 == 0.0 and y1 == 2.0) else "blend" if (math.isnan(y0) and y1 == 2.0) else None
+        detail["probe_log_value"] = [atom_json(y0), atom_json(y1)]
+        G2 = ToyGraph([dict(name="x", kind="ind", parents=[]),
+                       dict(name="c", kind="linked", parents=["x"], fun=["affine", 0, [2]])], 2, "float64")
+        G2.build()
+        st = State(G2.dag)
+        st.auto_fork_type = StateForkType.COPY
+        st["x"] = G2.tensor([1, 2])
+        st["c"]
+        st["x"] = G2.tensor(["inf", 3])
+        st["c"]
+        st.revert(torch.tensor([True, False]))
+        c0, c1 = st._values["c"].tolist()
+        detail["probe_inf"] = "where" if (c0 == 2.0 and c1 == 6.0) else "blend" if (math.isnan(c0) and c1 == 6.0) else None
+        detail["probe_inf_value"] = [atom_json(c0), atom_json(c1)]
+    except Exception as e:  # noqa
+        detail["probe_error"] = f"{type(e).__name__}: {e}"
+    views = (detail["source"], detail["probe_log"], detail["probe_inf"])
+    mix = views[0] if (views[0] is not None and views[0] == views[1] == views[2]) else None
+    detail["mix"] = mix
+    return mix, detail
+
 
 # ----------------------------------------------------------------------------- executing histories
 
@@ -299,7 +460,8 @@ def probe_of(st):
 
 class Session:
     """Real states of one graph + bookkeeping.  `fx` says which model the discipline flags are computed for
-    (False: the code as it is; True: after the proposed repair of F1)."""
+    (True: the code since 27ac519, an un-forked assignment drops the pending fork; False: the code before, finding F1;
+    `detect_setitem_variant()` tells which one the tree under test has)."""
 
     def __init__(self, G: ToyGraph, fx=False, oracle=True):
         from leaspy.variables.state import State
@@ -312,6 +474,12 @@ class Session:
         self.taint = [set()]          # per state: 'unforked' (F1 precondition met), 'mask' (misuse of partial revert)
         self.records = []             # (op, out, ok_flag)
         self.mismatches = []          # oracle failures: dict(step, state, node, expected, observed, taint)
+        # histories of the F1 shape, measured on the real state whatever the variant: per state, "an assignment was made
+        # with auto-fork off while a fork was pending and no forked assignment / clear happened since"
+        self.nonfinite_masks = 0      # partial reverts applied while a doubly cached forked entry was inf / NaN
+        self.after_unforked = [False]
+        self.f1_events = []           # dict(kind: unforked-set-over-pending-fork | revert-after | read-after-revert, step, state, out)
+        self._reverted_after = [False]
 
     # -- discipline of an operation, evaluated on the real state before it runs
     def op_ok(self, op):
@@ -362,6 +530,8 @@ class Session:
             if kind == "clone":
                 self.states.append(st.clone(disable_auto_fork=bool(op[2]), keep_last_fork=bool(op[3])))
                 self.taint.append(set(self.taint[k]))
+                self.after_unforked.append(self.after_unforked[k])
+                self._reverted_after.append(self._reverted_after[k])
                 return ("done",)
             if kind == "mode":
                 st.auto_fork_type = None if op[2] is None else StateForkType[op[2]]
@@ -385,8 +555,39 @@ class Session:
         n_before = len(self.states)
         if not ok and k < len(self.states):
             self.taint[k].add("unforked" if op[0] in ("set", "put") else "mask")
+        if k < n_before and op[0] == "revmask" and self.states[k]._last_fork is not None:
+            # a per-individual revert applied while a doubly cached entry of the fork is not finite: where the blend
+            # old*mask + cur*~mask (before fe0cadd) and the selection differ
+            stk = self.states[k]
+            for c, old in stk._last_fork.items():
+                cur = stk._values[c]
+                if old is not None and cur is not None and not (bool(old.isfinite().all()) and bool(cur.isfinite().all())):
+                    self.taint[k].add("nonfinite-mask")
+                    self.nonfinite_masks += 1
+                    break
+        over_pending = forked = False
+        if k < n_before and op[0] in ("set", "put"):
+            st = self.states[k]
+            over_pending = st.auto_fork_type is None and st._last_fork is not None
+            forked = st.auto_fork_type is not None
         out = self.execute(op)
         self.records.append((op, out, ok))
+        if k < n_before:
+            step = len(self.records) - 1
+            if op[0] in ("set", "put") and out == ("done",):
+                if over_pending:
+                    self.after_unforked[k] = True
+                    self._reverted_after[k] = False
+                    self.f1_events.append(dict(kind="unforked-set-over-pending-fork", step=step, state=k, out=list(out)))
+                elif forked:
+                    self.after_unforked[k] = self._reverted_after[k] = False
+            elif op[0] in ("revert", "revmask") and self.after_unforked[k]:
+                self._reverted_after[k] = True
+                self.f1_events.append(dict(kind="revert-after", step=step, state=k, out=list(out)))
+            elif op[0] == "get" and self._reverted_after[k]:
+                self.f1_events.append(dict(kind="read-after-revert", step=step, state=k, out=[out[0]]))
+            elif op[0] == "clear":
+                self.after_unforked[k] = self._reverted_after[k] = False
         if self.oracle:
             touched = [k] if k < n_before else []
             if len(self.states) > n_before:
@@ -472,15 +673,23 @@ def run_ops(G, ops, fx=False, oracle=True):
 
 
 def rand_value(rng, G, name, small=False):
+    """small integers; on float64 graphs that ask for it (`G.nonfinite`), now and then +-inf (sums, products by the non-zero
+    coefficients and differences of those stay in the exact vocabulary: finite integers, +-inf, NaN)"""
     lo, hi = (-3, 3) if small else (-9, 9)
+    nf = getattr(G, "nonfinite", False) and G.dtype == "float64"
+
+    def one():
+        if nf and rng.random() < 0.12:
+            return rng.choice(["inf", "-inf", "inf"])
+        return rng.randint(lo, hi)
     if G.by_name.get(name, {}).get("kind") == "ind":
-        return [rng.randint(lo, hi) for _ in range(G.n_ind)]
-    return rng.randint(lo, hi)
+        return [one() for _ in range(G.n_ind)]
+    return one() if (nf and rng.random() < 0.3) else rng.randint(lo, hi)
 
 
-def gen_history(rng, G, malformed=False, length=None, max_states=3):
-    """Generate (and execute) one history against live states.  Returns the Session."""
-    s = Session(G)
+def gen_history(rng, G, malformed=False, length=None, max_states=3, fx=False):
+    """Generate (and execute) one history against live states.  Returns the Session.  `fx`: see Session."""
+    s = Session(G, fx=fx)
     length = length or rng.randint(1, 40)
     sett = G.settable()
     names = list(G.order)
@@ -572,6 +781,27 @@ def gen_history(rng, G, malformed=False, length=None, max_states=3):
             s.apply(["mode", k, rng.choice(["REF", "COPY", None, "REF"])])
         elif r < 0.90:
             s.apply(["precompute", k])
+        elif r < 0.935 and sett and fork_pending(k):
+            # the shape of finding F1: auto-fork switched off while a fork is pending, an assignment, then a revert
+            # (refused with "no fork to revert from" since 27ac519; restored a stale undo log before) and reads
+            s.apply(["mode", k, None])
+            n = rng.choice(sett)
+            if st._values[n] is None or rng.random() < 0.5:
+                s.apply(["set", k, n, rand_value(rng, G, n)])
+            elif G.by_name[n]["kind"] == "ind" and rng.random() < 0.4:
+                s.apply(["put", k, n, rng.randrange(G.n_ind), rng.randint(-3, 3), rng.random() < 0.7])
+            else:
+                s.apply(["put", k, n, None, rand_value(rng, G, n, True), True])
+            for _ in range(rng.randint(0, 2)):
+                s.apply(["get", k, rng.choice(names)])
+            if G.by_name[n]["kind"] == "ind" and rng.random() < 0.35:
+                s.apply(["revmask", k, [rng.random() < 0.5 for _ in range(G.n_ind)]])
+            else:
+                s.apply(["revert", k])
+            for _ in range(rng.randint(1, 2)):
+                s.apply(["get", k, rng.choice(names)])
+            if rng.random() < 0.7:
+                s.apply(["mode", k, rng.choice(["REF", "COPY"])])
         elif r < 0.985:
             s.apply(["isset", k, rng.choice(names)])
         else:
